@@ -50,6 +50,15 @@ def payload (packType : Nat) (body : Bytes) : Bytes := beN 2 packType ++ body
 def frame (pcode : Int) (license : Bytes) (pl : Bytes) : Bytes :=
   [netSrcOneWay, netSrcVersion] ++ (encI 8 pcode ++ (encI 8 (hash64 license) ++ (encI 4 pl.length ++ pl)))
 
+/-- the frame variant with an object id and a transfer key instead of the license hash
+    (`DataOutputX.WriteSecureHeader`): source, version, be8 pcode, be4 oid, be4 key, be4 |payload|, payload -/
+def secureFrame (src ver : Nat) (pcode oid key : Int) (pl : Bytes) : Bytes :=
+  [src % 256] ++ ([ver % 256] ++ (encI 8 pcode ++ (encI 4 oid ++ (encI 4 key ++ (encI 4 pl.length ++ pl)))))
+
+/-- block padding of a payload (`pack.ToBytesPackECB`): zero bytes up to the next multiple of `n` -/
+def padECB (n : Nat) (bs : Bytes) : Bytes :=
+  if bs.length % n = 0 then bs else bs ++ List.replicate (n - bs.length % n) 0
+
 /-! ### common header -/
 
 structure Hdr where
